@@ -337,6 +337,21 @@ impl PlainSecretParams {
             _ => {}
         }
 
+        // Do not lock with parameters that `EncryptedSecretParams::unlock` refuses,
+        // such a key could never be unlocked again.
+        if version == KeyVersion::V6 {
+            match &s2k_params {
+                S2kParams::Aead { s2k, .. } | S2kParams::Cfb { s2k, .. } => match s2k {
+                    StringToKey::Argon2 { .. }
+                    | StringToKey::IteratedAndSalted { .. }
+                    | StringToKey::Salted { .. } => {}
+                    _ => bail!("Version 6 keys may not use the weak S2k type {:?}", s2k),
+                },
+                S2kParams::Unprotected => {}
+                _ => bail!("Version 6 keys may only be encrypted with S2k usage AEAD or CFB"),
+            }
+        }
+
         match &s2k_params {
             S2kParams::Unprotected => bail!("cannot encrypt to unprotected"),
             S2kParams::Cfb { sym_alg, s2k, iv } => {
@@ -373,7 +388,12 @@ impl PlainSecretParams {
                 s2k,
                 nonce,
             } => {
-                let key = s2k.derive_key(passphrase, sym_alg.key_size())?;
+                let key = match s2k {
+                    StringToKey::Argon2 { .. } | StringToKey::IteratedAndSalted { .. } => {
+                        s2k.derive_key(passphrase, sym_alg.key_size())?
+                    }
+                    _ => bail!("S2K usage AEAD is not allowed with S2K type {:?}", s2k.id()),
+                };
 
                 let enc_data = match version {
                     KeyVersion::V2 | KeyVersion::V3 => {
